@@ -964,8 +964,42 @@ def var_identity_batch(rng):
         yield Case("pmatch_var_identity", None, None, True, f"pattern={text!r} on {what}", oracle_fail=fail, sig="pmatch|var-identity")
 
 
+def backslash_batch(rng):
+    """"a quoted regex matches at the start of str(value)": the regex IS the text between the quotes (an escaped backslash
+    `\\\\` in the pattern text is the regex `\\\\`, i.e. a literal backslash; `\\d` is the digit class), on subjects that
+    hold backslashes.  Oracle only: Python's own `re.match(<text between the quotes>, str(value))`"""
+    import re as _re
+    subjects = ["C:\\dir\\file.h", "C:5ir", "\\section", " section", "a\\\\b", "a\\b", "\\d5", "55", "x\\\"y", "\\"]
+    inners = ["C:\\\\dir", "\\\\section", "\\\\d", "\\d", "a\\\\\\\\b", "a\\\\b", "\\\\\\d", "x\\\\\\\"y", "\\\\$", "C:\\\\dir\\\\file\\.h$",
+              "\\s", "\\\\s"]
+    inners += [r for r in (rx_lit(x[: rng.randint(1, len(x))]) for x in subjects) if r]
+    for inner in inners:
+        text = f'(Leaf @s="{inner}")'
+        for subj in subjects:
+            node = zoo.Leaf(s=subj)
+            pm._MATCHER_CACHE.clear()
+            fail = None
+            try:
+                want = _re.match(inner, subj) is not None
+            except _re.error:
+                continue
+            try:
+                m, msg = NodeMatcher.from_pattern(text)
+                if m is None:
+                    fail = f"pattern rejected: {msg}"[:160]
+                else:
+                    ok, _caps = m.match(node)
+                    if bool(ok) != want:
+                        fail = f"match is {bool(ok)}; re.match({inner!r}, {subj!r}) says {want}"
+            except Exception as e:  # noqa
+                fail = f"raised {type(e).__name__}: {e}"[:160]
+            yield Case("pmatch_backslash", None, None, True, f"pattern={text!r} on Leaf(s={subj!r})", oracle_fail=fail,
+                       sig="pmatch|backslash")
+
+
 def cases(rng: random.Random, tier: str):
     yield from var_identity_batch(rng)
+    yield from backslash_batch(rng)
     yield from fixed_cases()
     n = 230 if tier == "quick" else 5000
     for i in range(n):
